@@ -561,20 +561,23 @@ int sbdf_tm_write(FILE* out, sbdf_tablemetadata const* in)
 		{
 			if (array_size == array_capacity)
 			{
+				struct metadata_sort* grown;
 				array_capacity = sbdf_calculate_array_capacity(1 + array_size);
 				if (array)
 				{
-					array = realloc((struct metadata_sort*)array, sizeof(struct metadata_sort) * array_capacity);
+					grown = realloc((struct metadata_sort*)array, sizeof(struct metadata_sort) * array_capacity);
 				}
 				else
 				{
-					array = malloc(sizeof(struct metadata_sort) * array_capacity);
+					grown = malloc(sizeof(struct metadata_sort) * array_capacity);
 				}
 
-				if (!array)
+				if (!grown)
 				{
-					return SBDF_ERROR_OUT_OF_MEMORY;
+					error = SBDF_ERROR_OUT_OF_MEMORY;
+					goto end;
 				}
+				array = grown;
 			}
 
 			{
@@ -683,7 +686,7 @@ int sbdf_tm_write(FILE* out, sbdf_tablemetadata const* in)
 
 				if (error = sbdf_obj_write(meta->value, out))
 				{
-					return error;
+					goto end;
 				}
 			}
 			else if (error = sbdf_write_int8(out, 0))
